@@ -19,7 +19,7 @@ LEVEL_NOTE = "Trusted: seam completeness for lock access; planted IDs are >= 50 
 RULE = ("case index -> configuration point (index mod 216, complete product) or error configuration; world seeded per case; 1 run, "
         "+1 run after 'delete top statement, add one' for lock-using edit points. Non-trivial = every case (each is a distinct "
         "(point, world)); distinct = case index.")
-PROBES = ["cache_off", "cache_omitted", "lock_valid", "lock_corrupt", "lock_empty", "lock_absent", "structured_omitted",
+PROBES = ["cache_off_abnormal_ending", "cache_off", "cache_omitted", "lock_valid", "lock_corrupt", "lock_empty", "lock_absent", "structured_omitted",
           "extensions_omitted", "error_config", "second_run"]
 ASSUMPTIONS = ["fault-free runs"]
 DEADLINE = {"quick": 200, "thorough": 3000}
@@ -176,6 +176,46 @@ def evaluate_point(wm0, point, seed, ctx):
     return viols
 
 
+def evaluate_cache_off_endings(wm0, point, seed, plans, ctx):
+    """use_cache false: neither read nor created nor changed - also when the run is stopped by a signal or hits an
+    I/O error.  plans = explicit fault plans (chosen against the fault-free run's operation list)."""
+    use_cache, lockstate, structured, exts, check = point
+    tag = "cache=off|lock=%s|%s" % (lockstate, "check" if check else "edit")
+    viols = []
+    for plan in plans:
+        run = scen.exec_run(wm0, check, plan, {"threads": 2}, ctx)
+        res = run["res"]
+        f0 = plan["faults"][0]
+        fc = scen.fault_class(f0)
+        scenario = {"wm": world.wm_to_json(wm0), "point": list(point), "seed": seed, "ending_plan": plan}
+        dg = hashlib.sha256((res.trace_digest() + core.digest_world(run["after"])).encode()).hexdigest()
+        lo = lock_ops(res)
+        if lo:
+            viols.append({"signature": "cache-off-lock-touched|%s|%s|%s" % (tag, res.ending(), fc),
+                          "what": "use_cache false, run ended %s after %s, and issued %s" % (res.ending(), f0, [o.short() for o in lo[:3]]),
+                          "scenario": scenario, "digest": dg})
+        if run["before"].get("proj/Breadlog.lock") != run["after"].get("proj/Breadlog.lock") or \
+                any(p.startswith("proj/Breadlog.lock") for p, _h in core.diff_worlds(run["before"], run["after"])):
+            viols.append({"signature": "cache-off-lock-changed|%s|%s|%s" % (tag, res.ending(), fc),
+                          "what": "use_cache false, run ended %s after %s, and the lock file (or a sibling of it) changed"
+                                  % (res.ending(), f0), "scenario": scenario, "digest": dg})
+        if res.fired_counts() or res.signals:
+            ctx.probes["cache_off_abnormal_ending"] += 1
+    return viols
+
+
+def cache_off_plans(rng, wm0, check, seed, ctx, n):
+    tw = scen.exec_run(wm0, check, {"seed": seed, "perm": True, "faults": []}, {"threads": 2}, ctx)
+    ops = tw["res"].ops
+    phm = scen.phases(ops)
+    from . import common
+    cands = common.candidates(rng, ops, phm, ["sig_before", "sig_after", "fail", "kill_after"], False, signos=(2, 15))
+    w = {"rename": 8, "after-rename": 6, "scratch-write": 5, "scratch-open": 4, "read-after-mutation": 5, "read": 2, "discovery": 1,
+         "startup": 1}
+    chosen = common.weighted_sample(rng, cands, [w.get(ph, 1) for ph, _f in cands], n)
+    return [{"seed": seed, "perm": True, "faults": [f]} for _ph, f in chosen]
+
+
 def build_error(rng, kind):
     wm = build_world(rng, rng.choice([True, None, False]), rng.choice(["absent", "valid"]), rng.choice([True, None, False]), None)
     knobs = {"threads": 2}
@@ -236,6 +276,9 @@ def run_case(rng, idx, tier, ctx):
             ctx.probes["extensions_omitted"] += 1
         ctx.sites.add("point:%d" % j)
         viols = evaluate_point(wm, point, seed, ctx)
+        if use_cache is False:
+            plans = cache_off_plans(rng, wm, check, seed, ctx, 4 if tier == "quick" else 10)
+            viols += evaluate_cache_off_endings(wm, point, seed, plans, ctx)
         if not ctx.samples:
             ctx.samples.append({"point": {"use_cache": use_cache, "lock": lockstate, "structured": structured, "extensions": exts,
                                           "mode": "check" if check else "edit"}, "files": sorted(wm["files"]),
@@ -254,4 +297,7 @@ def replay(scenario, ctx):
     if "err" in scenario:
         return evaluate_error(wm, scenario["knobs"], scenario["err"], scenario["check"], scenario["seed"], ctx)
     pt = scenario["point"]
-    return evaluate_point(wm, tuple(pt), scenario["seed"], ctx)
+    pt = tuple(tuple(x) if isinstance(x, list) and False else x for x in pt)
+    if "ending_plan" in scenario:
+        return evaluate_cache_off_endings(wm, pt, scenario["seed"], [scenario["ending_plan"]], ctx)
+    return evaluate_point(wm, pt, scenario["seed"], ctx)
